@@ -1,6 +1,10 @@
 //! fx — mechanical extractor/translator from /repo's working tree to the verified text.
 //! Usage: fx gen --repo /repo --verif /verif --out /verif/gen [--units arith,effect,...]
 mod arith;
+mod effect;
+mod effect_ir;
+mod effect_ty;
+mod effect_walk;
 mod emit;
 mod index;
 mod select;
@@ -70,6 +74,15 @@ fn main() {
                     );
                 }
                 report.insert("arith".into(), serde_json::Value::Object(unit));
+            }
+            "effect" => {
+                let prelude = std::fs::read_to_string(verif.join("specs/effect_prelude.vrs")).unwrap_or_default();
+                let cfg: serde_json::Value = std::fs::read_to_string(verif.join("specs/effect.json")).ok().and_then(|s| serde_json::from_str(&s).ok()).unwrap_or(json!({}));
+                let g = effect::generate(&idx, &prelude, &cfg);
+                std::fs::write(out.join("effect.rs"), &g.text).unwrap();
+                let mut unit = serde_json::Map::new();
+                unit.insert("effect.rs".into(), json!({"errors": g.errors, "report": g.report}));
+                report.insert("effect".into(), serde_json::Value::Object(unit));
             }
             other => {
                 eprintln!("fx: unknown unit {}", other);
